@@ -11,7 +11,7 @@ use super::types::{
 use super::FixtureDatabase;
 use rustpython_parser::ast::{Expr, Ranged, Stmt};
 use std::collections::HashSet;
-use std::path::Path;
+use std::path::{Path, PathBuf};
 use tracing::{debug, info};
 
 impl FixtureDatabase {
@@ -177,6 +177,55 @@ impl FixtureDatabase {
         })
     }
 
+    /// Workspace plugin modules (pytest11 entry points and what they star-import), in a
+    /// stable order.
+    fn workspace_plugin_files(&self) -> Vec<PathBuf> {
+        let mut files: Vec<PathBuf> = self
+            .plugin_fixture_files
+            .iter()
+            .map(|entry| entry.key().clone())
+            .filter(|path| {
+                !self.path_is_in_site_packages(path) && !self.is_editable_install_third_party(path)
+            })
+            .collect();
+        files.sort_by(|a, b| a.components().rev().cmp(b.components().rev()));
+        files
+    }
+
+    /// The project definition of `fixture_name` that a workspace plugin module imports.
+    fn find_definition_imported_by_plugin<F>(
+        &self,
+        fixture_name: &str,
+        filter: F,
+    ) -> Option<FixtureDefinition>
+    where
+        F: Fn(&FixtureDefinition) -> bool,
+    {
+        self.workspace_plugin_files().into_iter().find_map(|plugin_file| {
+            if self.is_fixture_imported_in_file(fixture_name, &plugin_file) {
+                self.find_imported_definition(fixture_name, &plugin_file, &filter)
+                    .filter(|def| !def.is_third_party)
+            } else {
+                None
+            }
+        })
+    }
+
+    /// Names of all fixtures that workspace plugin modules import.
+    fn fixture_names_imported_by_plugins(&self) -> Vec<String> {
+        let mut names: Vec<String> = Vec::new();
+        for plugin_file in self.workspace_plugin_files() {
+            let mut visited = HashSet::new();
+            for name in self.get_imported_fixtures(&plugin_file, &mut visited) {
+                if !names.contains(&name) {
+                    names.push(name);
+                }
+            }
+        }
+        names.sort();
+        names
+    }
+
     /// Order same-named definitions of one priority tier by where they are, so that the
     /// choice among them never depends on registration order. Paths are compared from the
     /// file name upwards, which keeps the order stable when the workspace is moved.
@@ -309,6 +358,17 @@ impl FixtureDatabase {
                 fixture_name, def.file_path
             );
             return Some(def.clone());
+        }
+
+        // ... or one that a workspace plugin module names in an explicit import
+        // (`from .fixtures import my_fixture` makes it an attribute of the plugin module
+        // without making the whole imported module a plugin)
+        if let Some(def) = self.find_definition_imported_by_plugin(fixture_name, &filter) {
+            info!(
+                "Found fixture {} imported by a plugin module: {:?}",
+                fixture_name, def.file_path
+            );
+            return Some(def);
         }
 
         // Priority 4: Third-party fixtures (site-packages)
@@ -638,6 +698,17 @@ impl FixtureDatabase {
             {
                 available_fixtures.push(def.clone());
                 seen_names.insert(fixture_name.clone());
+            }
+        }
+
+        // ... and fixtures that workspace plugin modules name in explicit imports
+        for fixture_name in self.fixture_names_imported_by_plugins() {
+            if !seen_names.contains(&fixture_name) {
+                if let Some(def) = self.find_definition_imported_by_plugin(&fixture_name, |_| true)
+                {
+                    available_fixtures.push(def);
+                    seen_names.insert(fixture_name);
+                }
             }
         }
 
